@@ -99,7 +99,7 @@ def step : List String → String
           "ok:" ++ toHex (exportImage c b) ++ ";" ++ sha b.msgData ++ ";" ++ sha b.msgCsf ++ ";" ++ toString b.attempts
             ++ ";" ++ blocksStr (if isAuth c.flags then c.signedBlocks else []) ++ ";"
             ++ blocksStr (if isEnc c.flags then c.encryptedBlocks else [])
-            ++ ";shape=" ++ (match genShape c with | some (_, true, _) => "fast" | some (_, false, _) => "std" | none => "none")
+            ++ ";shape=" ++ (match genShape c with | some (_, true, _, _) => "fast" | some (_, false, _, _) => "std" | none => "none")
             ++ ";vis=" ++ boolStr (decide (AppVisible c b.app))
             ++ ";rt=" ++ boolStr (decide (parse (exportImage c b) = .ok (expectedParse c b)))
     | _, _, _, _, _, _, _, _, _, _, _, _, _, _, _ => "bad-op"
